@@ -168,6 +168,19 @@ def run(tier):
     reqs, pend = [], []
     rep, detail = findings.probe_uml_dup_regen(runner)
     findings.record(oc, PROP, findings.UML_DUP, rep, detail)
+    # files saved with CRLF line endings: user code must stay in place (violation otherwise); that the pinned
+    # generator rewrites the endings to LF is the recorded finding crlf-line-endings-normalised
+    import crlfprobe
+    seen = False
+    for i in range(12 if thorough else 3):
+        res = crlfprobe.run(runner, r, change_model=False)
+        oc.stat("crlf_trees_regenerated")
+        if res["kind"] == "violation":
+            oc.violations.append(res)
+            break
+        seen = seen or res["kind"] == "finding"
+    if not oc.violations:
+        findings.record(oc, PROP, crlfprobe.CRLF, seen, dict(note="first regeneration of a CRLF-saved tree"))
     unit_cases(r, 3000 if thorough else 400, oc, reqs, pend)
     n = 400 if thorough else 45
     for i in range(n):
